@@ -8,8 +8,10 @@ TABLE = {
                             'the callback arities of the default operators (event mode); assumed with a bounded stand-in: the emitted '
                             'getter/setter/symbol-name tuples agree position-wise and loop options carry the directives'),
     'C04': dict(level='other', bounded=[('c04_scan.py', 'NoNative scan of to_code + operator invocation counts, constructs planted in every context')],
-                explanation='bounded stand-in (AST scan of the generated code with the NoNative predicate and dynamic operator counts); '
-                            'Engine B shape obligations are not built in this revision'),
+                explanation='proved (event mode): PyToPy.transform_ast runs exactly the documented pass pipeline, in order, asserts / '
+                            'lists+slices only under their feature flag (trace equivalence with the specification program); '
+                            'assumed with a bounded stand-in: each pass eliminates its constructs (AST scan of the generated code with '
+                            'the NoNative predicate and dynamic operator counts); per-pass shape obligations are not built in this revision'),
     'C06': dict(level='other', bounded=[('c06_lastwriter.py', 'last-writer oracle on executed programs + fixed-point check on every graph'),
                                         ('rt_worklist.py', 'worklist fixed-point contract on small graphs')],
                 explanation='proved: the worklist fixed point of cfg.GraphVisitor (shared with C07); assumed with bounded stand-ins: '
@@ -27,7 +29,10 @@ TABLE = {
                 explanation='bounded stand-in in this revision (GraphBuilder invariant proofs pending): Inv_G mirror, single entry, '
                             'reachability, stmt_next/stmt_prev agreement checked on every built graph; executed probe traces are CFG paths'),
     'C09': dict(level='other', bounded=[('c09_interface.py', 'signature/defaults/globals/closure identity and call bindings over all signature shapes')],
-                explanation='bounded stand-in in this revision (instantiate/transform_function contracts pending)'),
+                explanation='proved: _erase_arg_defaults replaces every default / non-None kw_default by the None literal, keeps the '
+                            'number of slots and touches nothing else (so the placeholder signature has the same parameters and the real '
+                            'defaults are re-attached by instantiate); assumed with a bounded stand-in: instantiate / transform_function '
+                            '(signature, defaults, globals, closure identity and call bindings over all signature shapes)'),
     'C10': dict(level='other', bounded=[('c10_cache.py', 'random request histories x option sets x 1..32 threads against fresh conversions')],
                 explanation='proved: the cache data structure (_TransformedFnCache.has/__getitem__, CodeObjectCache/UnboundInstanceCache '
                             '_get_key) and the options value type used as sub-key (C20); assumed with a bounded stand-in: the monitor '
@@ -54,12 +59,20 @@ TABLE = {
                             'the builtin with the arguments as supplied, for every call shape (omitted optionals are symbolic sentinels), when no '
                             'override is registered; bounded stand-in: value-level comparison incl. laziness and error types, print/zip/map, and '
                             'the context-sensitive builtins'),
-    'C15': dict(level='other', bounded=[('c15_source.py', 'layout grammar for defs and lambdas, recovered tree vs the node compiled by the interpreter')],
-                explanation='bounded stand-in in this revision'),
+    'C15': dict(level='other', bounded=[('c15_source.py', 'layout grammar for defs and lambdas, recovered tree vs the node compiled by the interpreter'),
+                                        ('rt_argspec.py', 'run-time evaluation of the signature-match contract on all pairs of a signature space')],
+                explanation='proved: _node_matches_argspec accepts a candidate lambda exactly when its parameter names agree with the '
+                            'function object kind by kind and in order (positional-only then positional-or-keyword, *args, keyword-only, '
+                            '**kwargs), _arg_name; assumed (T): what inspect.getfullargspec reports; assumed with a bounded stand-in: '
+                            'source recovery, continuation unfolding and candidate enumeration'),
     'C18': dict(level='other', bounded=[('c18_anf.py', 'side-effecting calls in every operand position, default and random configurations')],
-                explanation='bounded stand-in in this revision'),
+                explanation='proved: the ANF bookkeeping kernels (gensym counter strictly increases, pending statements are appended in '
+                            'evaluation order and handed over exactly once); assumed with a bounded stand-in: the traversal itself '
+                            '(evaluation order of hoisted operands, configuration matching)'),
     'C19': dict(level='other', bounded=[('c19_types.py', 'truthful resolver, run-time type log vs TYPES / CLOSURE_TYPES')],
                 explanation='proved: the shared worklist fixed point; bounded stand-in for the inference itself'),
     'C17': dict(level='other', bounded=[('c17_tree.py', 'tree-ness, ctx, compile, reparse identity, to_code text vs loaded module')],
-                explanation='bounded stand-in (run-time contract on PyToPy.transform_ast output)'),
+                explanation='proved (event mode): to_code returns the dedented source of the very function object that to_graph loads for '
+                            'the same arguments, and transform_ast is the documented pipeline; assumed with a bounded stand-in: tree-ness, '
+                            'ctx fields, compile and reparse identity of the pipeline output'),
 }
